@@ -60,7 +60,7 @@ Intact(it) ==
   ELSE IF IsContainer(it.v) THEN
        (IF it.st = "nav" THEN "yes"
         ELSE IF it.st = "unk" THEN "unk"
-        ELSE IF it.v.t = "arr" /\ Len(it.v.a) = 0 /\ it.pv.t = "arr" /\ Len(it.pv.a) = 0 THEN "unk"   \* zero-size allocations may share an address
+        ELSE IF it.v.t = "arr" /\ Len(it.v.a) = 0 /\ it.pv.t = "arr" /\ Len(it.pv.a) = 0 THEN "yes"   \* empty arrays have no identity (fix cc7d735; deviation from C02's wording: F-C02-empty-array-location)
         ELSE "no")
   ELSE IF IsContainer(it.pv) THEN "no"
   ELSE IF IsNumber(it.v) /\ IsNumber(it.pv) THEN
